@@ -123,6 +123,33 @@ impl Pipe {
 }
 /// `Box::new(pipeline)` into `Box<dyn Iterator ..>`: the same iterator
 pub fn boxed<T>(x: T) -> (r: T) ensures r == x { x }
+/// `v.pop()` followed by pushing the popped element back leaves the vector as it was (proof hint for harmless
+/// re-arrangements of the stream vector; Seq equality is not extensional by itself)
+pub mod seq_ax {
+    use vstd::prelude::*;
+    pub broadcast proof fn lemma_pop_then_push_back<T>(s: Seq<T>, x: T)
+        requires s.len() > 0, x == s.last(),
+        ensures #[trigger] s.drop_last().push(x) == s,
+    { assert(s.drop_last().push(x) =~= s); }
+    pub broadcast proof fn lemma_pop_then_push_back2<T>(s: Seq<T>, n: int, x: T)
+        requires s.len() > 0, n == s.len() - 1, x == s[n],
+        ensures #[trigger] s.subrange(0, n).push(x) == s,
+    { assert(s.subrange(0, n).push(x) =~= s); }
+}
+broadcast use {seq_ax::lemma_pop_then_push_back, seq_ax::lemma_pop_then_push_back2};
+/// anything that IS an `Iterator<Item = Result<Value, MergingValuesError>>` here: the lazy pipeline, or one raw input
+/// stream (`I` of `new<I>`); `yields` = the items it hands out, in order
+pub trait ValueIterator: Sized { spec fn yields(&self) -> Items; }
+impl ValueIterator for Pipe { open spec fn yields(&self) -> Items { self.items() } }
+/// the items ONE input stream yields by itself (the file's records for the query, explicit 0.0 records included);
+/// uninterpreted: nothing says it is its own merge -- `merged` (units value_iter / merge_into) is the per-base SUM with
+/// zero-sum bases ABSENT and adjacent equal values joined, so `merged([s]) != stream_items(s)` in general
+pub uninterp spec fn stream_items(s: Src) -> Items;
+impl ValueIterator for Stream { open spec fn yields(&self) -> Items { stream_items(self.src()) } }
+/// `Box::new(X)` INSIDE `MergingValues::new`, coerced to `Box<dyn Iterator<Item = Result<Value, MergingValuesError>> + Send>`:
+/// the same iterator, whatever iterator X is (the pipeline on /repo; a raw input stream after an edit)
+#[verifier::external_body]
+pub fn boxed_iter<T: ValueIterator>(x: T) -> (r: Pipe) ensures r.items() == x.yields() { unimplemented!() }
 /// utils::merge::merge_sections_many (signature: `sections: Vec<I>`): ASSUMED to be the merge of exactly the
 /// streams handed in, in that order (its body moves them into the ValueIter unchanged)
 #[verifier::external_body]
@@ -146,7 +173,7 @@ impl MergingValues {
 //@sub /iters: Vec<I>/ => iters: Vec<Stream> min=1
 //@sub /where\s+I: Iterator<Item = Result<Value, MergingValuesError>> \+ Send,/ => "" min=1
 //@sub /Box<dyn Iterator<Item = Result<Value, MergingValuesError>> \+ Send>/ => Pipe min=0
-//@sub /Box::new\(/ => boxed( min=0
+//@sub /Box::new\(/ => boxed_iter( min=0
 //@sub /(\w+)\.into_iter\(\)\.skip\((\w+)\)\.collect\(\)/ => skip_vec(\1, \2) min=0
 //@ret r
 //@sig
